@@ -47,6 +47,7 @@ type Engine struct {
 	overlay   map[string][]byte
 	overlayFiles map[string]string // virtual path -> real path (for replay)
 	wantWitness bool
+	lazyCache map[*ssa.Global][]ssa.Instruction
 }
 
 // harness packages: directory under /verif/harness -> import path in the repo
@@ -261,6 +262,35 @@ func (ex *Exec) lazyInit(g *ssa.Global) {
 		return
 	}
 	ex.lazyIn[g] = true
+	list := ex.eng.lazySlice(g, initFn)
+	if len(list) == 0 {
+		return // zero-initialised global
+	}
+	fr := &frame{ex: ex, fn: initFn, env: map[ssa.Value]Value{}}
+	for _, in := range list {
+		switch x := in.(type) {
+		case *ssa.Phi, *ssa.If, *ssa.Jump, *ssa.Return:
+			ex.unsupported(fmt.Sprintf("initialiser of %s needs control flow (%T)", g, in))
+		case *ssa.Alloc:
+			p := new(Value)
+			*p = ex.zero(deref(x.Type()))
+			fr.env[x] = p
+			continue
+		}
+		ex.steps++
+		ex.visitInstr(fr, in)
+	}
+}
+
+// lazySlice computes (once per global) the instructions of the package initialiser
+// that contribute to the initial value of g, in program order.
+func (e *Engine) lazySlice(g *ssa.Global, initFn *ssa.Function) []ssa.Instruction {
+	e.mu.Lock()
+	if l, ok := e.lazyCache[g]; ok {
+		e.mu.Unlock()
+		return l
+	}
+	e.mu.Unlock()
 	var all []ssa.Instruction
 	for _, b := range initFn.Blocks {
 		all = append(all, b.Instrs...)
@@ -284,10 +314,18 @@ func (ex *Exec) lazyInit(g *ssa.Global) {
 			}
 		}
 	}
+	// candidate mutating instructions only
+	var muts []ssa.Instruction
+	for _, in := range all {
+		switch in.(type) {
+		case *ssa.Store, *ssa.MapUpdate:
+			muts = append(muts, in)
+		}
+	}
 	changed := true
 	for changed {
 		changed = false
-		for _, in := range all {
+		for _, in := range muts {
 			if inSet[in] {
 				continue
 			}
@@ -297,8 +335,6 @@ func (ex *Exec) lazyInit(g *ssa.Global) {
 				target = rootOf(s.Addr)
 			case *ssa.MapUpdate:
 				target = rootOf(s.Map)
-			default:
-				continue
 			}
 			if valSet[target] {
 				inSet[in] = true
@@ -307,24 +343,17 @@ func (ex *Exec) lazyInit(g *ssa.Global) {
 			}
 		}
 	}
-	if len(inSet) == 0 {
-		return // zero-initialised global
-	}
-	fr := &frame{ex: ex, fn: initFn, env: map[ssa.Value]Value{}}
+	var list []ssa.Instruction
 	for _, in := range all {
-		if !inSet[in] {
-			continue
+		if inSet[in] {
+			list = append(list, in)
 		}
-		switch x := in.(type) {
-		case *ssa.Phi, *ssa.If, *ssa.Jump, *ssa.Return:
-			ex.unsupported(fmt.Sprintf("initialiser of %s needs control flow (%T)", g, in))
-		case *ssa.Alloc:
-			p := new(Value)
-			*p = ex.zero(deref(x.Type()))
-			fr.env[x] = p
-			continue
-		}
-		ex.steps++
-		ex.visitInstr(fr, in)
 	}
+	e.mu.Lock()
+	if e.lazyCache == nil {
+		e.lazyCache = map[*ssa.Global][]ssa.Instruction{}
+	}
+	e.lazyCache[g] = list
+	e.mu.Unlock()
+	return list
 }
